@@ -196,7 +196,8 @@ def plan_scripts(length):
                     shas.append((hashlib.sha1(src).hexdigest().encode(), nk, ka))
                     yield ('cmd', 1, [b'script', rng.choice([b'load', b'LOAD']), src])
                 elif k < 0.75:
-                    ask = [rng.choice(shas)[0] if shas and rng.random() < 0.7 else b'f' * 40 for _ in range(rng.choice([0, 1, 2]))]
+                    ask = [rng.choice(shas)[0] if shas and rng.random() < 0.7 else b'f' * 40 for _ in range(rng.choice([0, 1, 2, 3]))]
+                    ask = [rng.choice([a, a, a.upper(), a + b'\x00zz', a[:-1]]) for a in ask]
                     yield ('cmd', 2, [b'script', b'exists'] + ask)
                 elif k < 0.9:
                     yield ('cmd', 1, [b'script', b'flush'] + rng.choice([[], [b'sync'], [b'ASYNC'], [b'x'], [b'a', b'b']]))
